@@ -171,7 +171,7 @@ def hts_text_map_unchanged(headers, result):
 
 
 # ---- _prepare_headers: helper contract derived from the code, strong enough to carry C17 -----------------
-c = contract(f"{T}:HttpxTransport._prepare_headers", props=["C17"], types={"current_request_kwargs": "dict"}, returns="dict",
+c = contract(f"{T}:HttpxTransport._prepare_headers", props=["C17", "C04"], types={"current_request_kwargs": "dict"}, returns="dict",
              modifies=["current_request_kwargs"], variants=AUTH_VARIANTS_PH, abstract_unsupported=True)
 
 @c.requires
@@ -201,14 +201,14 @@ def _status_is_int(result):
     return isinstance(result.status_code, int) and not isinstance(result.status_code, bool)
 
 
-c = contract(f"{T}:HttpxTransport.request", props=["C17", "C06"], types={"method": "str", "url": "str"},
+c = contract(f"{T}:HttpxTransport.request", props=["C17", "C06", "C04"], types={"method": "str", "url": "str"},
              inline=["HTTPError"], track_calls=True, dependency_post={"self._client.request": _status_is_int}, variants=AUTH_VARIANTS)
 
 @c.requires
 def rq_pre(self, method, url, kwargs):
     return transport_ok(self)
 
-@c.ensures(props=["C17"], note="C17, from the statement: the request that leaves carries per-request headers over defaults, then each "
+@c.ensures(props=["C17", "C04"], note="C17, from the statement: the request that leaves carries per-request headers over defaults, then each "
                 "plugin's contribution (incl. query / cookie API keys); params, body and other arguments unchanged")
 def rq_sent(self, method, url, kwargs, old, result):
     base_args = auth_args(self, old.kwargs)
@@ -223,7 +223,7 @@ def rq_sent(self, method, url, kwargs, old, result):
             and call_arg("self._client.request", 0, 0) == method and call_arg("self._client.request", 0, 1) == url
             and call_kwargs("self._client.request", 0) == want)
 
-@c.ensures(props=["C17"], note="C17: for the bundled plugin classes the merged form above is exactly the plugin's effect on the "
+@c.ensures(props=["C17", "C04"], note="C17: for the bundled plugin classes the merged form above is exactly the plugin's effect on the "
                 "caller's arguments (nothing of the caller's is lost, nothing else is added)")
 def rq_sent_exact(self, method, url, kwargs, old, result):
     if isinstance(self._auth, (BearerAuth, HeadersAuth, ApiKeyAuth)):
@@ -250,3 +250,15 @@ def rq_raises_classed(self, method, url, kwargs, old, exc):
     return (exc.status_code == sc and exc.response is resp and not (200 <= sc and sc < 300)
             and implies(400 <= sc and sc < 500, isinstance(exc, ClientError))
             and implies(500 <= sc and sc < 600, isinstance(exc, ServerError)))
+
+
+# ---- HTTPError.__init__ (C06: the error a caller catches carries the status code and the response it was built from) -----------------
+# (callers inline this constructor; it is ALSO verified on its own so that a change inside it fails a named obligation rather than pushing
+#  every caller out of the engine's subset)
+c = contract("pyopenapi_gen.core.exceptions:HTTPError.__init__", props=["C06"], nothrow=True, nothrow_calls=["super", "super().__init__", "__init__"],
+             modifies=["self"])
+
+@c.ensures(note="C06, from the statement: the raised error carries the response's status code, the message and the response object, for every "
+                "status code (not only registered ones) and every message, the empty one included")
+def he_carries(self, status_code, message, response):
+    return self.status_code == status_code and self.message == message and self.response is response
